@@ -8,6 +8,7 @@ import (
 	"strings"
 	"sync"
 	"sync/atomic"
+	"time"
 
 	"github.com/gorilla/websocket"
 	"github.com/posener/wstest"
@@ -358,4 +359,18 @@ func serveHTTP(handler http.Handler, clock *Clock, method, url string, body []by
 		close(hc.done)
 	}()
 	return hc
+}
+
+// dialProbe reports whether the handler accepts a new WebSocket connection. A
+// handler that returns without upgrading (or does not answer within the
+// handshake timeout) refuses it.
+func dialProbe(h http.Handler) bool {
+	d := wstest.NewDialer(h)
+	d.HandshakeTimeout = 1500 * time.Millisecond
+	ws, _, err := d.Dial("ws://example.org/", nil)
+	if err != nil {
+		return false
+	}
+	ws.Close()
+	return true
 }
